@@ -271,6 +271,12 @@ REGISTRY = {
         "assumptions": ["after every successful merge the harness decodes the hint file and the rewritten files with the package's own readers and compares them entry by entry (implementation-side oracle), and the digest of the hint entries with the model's hint file; positions and sizes of all keys are compared with the model after the adopting Open (hint path) and after the next Open (scan path)",
                         "hint records are framed and CRC-protected like data records (C11); the varint encoding of a hint record is compared through the byte counts of the hint-file writes and the decoded entries"],
     },
+    "C07": {
+        "corr": lambda tier, seed: corr_crash("C07", tier, seed, ["merge"], 60, 1200, oracle_props=["C07", "C03", "C04"]),
+        "assumptions": ["crash model: the process dies between two file-system calls (write, rename, remove, remove-all, create, truncate, sync); each call is atomic; nothing already written is lost",
+                        "the theorems describe the directory states an interrupted Merge / adoption can leave (marker absent: anything in the merge directory; marker present: rewritten files j..n-1 still to move, hint moved or not); that the event-level crash images of the model (Crash.v) and of the real engine at every single event are such states is established by running both on every image (this run), not by a theorem",
+                        "every image is opened twice by the real engine (second Open = retry after recovery / second adoption attempt) and by the model; a crash during the retry is covered by the theorem's quantification over all states of the family"],
+    },
     "C13": {
         "corr": lambda tier, seed: corr_engine("C13", tier, seed, "restarts,batches,merges,bigvals", 160, 4000, ops=30,
                                                dflags="", oracle_props=["C13"]),
